@@ -199,8 +199,10 @@ def compare(ctx, ops, w1, w2, site, what):
         if d:
             ctx.note(f"before: pre={G.r_f(w1['actions'][a]['pre'])} eff={[G.r_e(e) for e in w1['actions'][a]['eff']]}")
             ctx.note(f"after:  pre={G.r_f(w2['actions'][a]['pre'])} eff={[G.r_e(e) for e in w2['actions'][a]['eff']]}")
-            raise Violation("C08/behaviour-differs", site, f"{what}: action {a}: {d}",
-                            {"simplified_condition": has_simplified_condition(w1["actions"][a])})
+            feats = {"simplified_condition": has_simplified_condition(w1["actions"][a])}
+            if has_forall_eq_only(w1["actions"][a]):
+                feats = {"forall_eq_only": True}
+            raise Violation("C08/behaviour-differs", site, f"{what}: action {a}: {d}", feats)
 
 
 def _has_cmp(f):
@@ -222,6 +224,15 @@ def has_simplified_condition(act):
             return True
     for x in act["pre"][1]:
         if x[0] in ("or", "and", "forall") and _has_cmp(x):
+            return True
+    return False
+
+
+def has_forall_eq_only(act):
+    """a forall precondition whose body consists of (in)equalities only (printed as the empty string by
+    UniversalPrecondition.__str__: 'if len(self.operands) == 0: return ""')"""
+    for x in act["pre"][1]:
+        if x[0] == "forall" and x[3][1] and all(y[0] in ("=", "neq") for y in x[3][1]):
             return True
     return False
 
@@ -259,6 +270,13 @@ def run(ctx):
         feat = C.draw_features(ctx)
         feat["cond_numeric"] = cfg.chance(1, 3)
         ctx.profile = "simplified-conditions" if feat["cond_numeric"] else "clean"
+        nested = cfg.draw(6)
+        if nested == 0:
+            feat["or_pre"] = True
+            ctx.profile += "+or-preconditions"
+        elif nested == 1:
+            feat["forall_pre"] = True
+            ctx.profile += "+forall-preconditions"
         W = C.World(ctx, feat)
         text = W.dom_text
         label = "generated"
